@@ -107,9 +107,17 @@ class SvsWorld(World):
         async def pass_all(name, sig, ctx):
             return ndn_types.ValidResult.PASS
 
+        self.cb_count = 0
+
         def on_missing(inst):
             world.log('missing', local=dict(inst.local_sv))
             world.callbacks_in_handler += 1
+            k = world.cb_count
+            world.cb_count += 1
+            if k in (scenario.get('cb_raise') or ()):
+                # the application's own callback fails: that is the application's problem, the sync state must not suffer
+                world.stats['fault.callback_raises'] += 1
+                raise RuntimeError('scripted application error in on_missing_data')
         self.inst = svs_sync.SvsInst('/' + '/'.join(BASE), '/node/' + SELF, on_missing,
                                      DigestSha256Signer(for_interest=True), pass_all,
                                      sync_interval=scenario.get('sync_interval', 30.0),
@@ -206,16 +214,29 @@ class SvsWorld(World):
         self.op_stop(op)
         self.op_start(op)
 
+    def op_face_down(self, op):
+        """the face cannot send for a while (e.g. the transport is reconnecting): express() raises NetworkError"""
+        self.face.running = False
+        self.stats['fault.face_down'] += 1
+        self.log('face-down')
+        self.after(op.get('dur_us', 1000), self._face_up)
+
+    def _face_up(self):
+        self.face.running = True
+        self.log('face-up')
+
     def op_new_data(self, op):
         before = self.inst.self_seq
         self.new_data_this_step = True
         seq0 = self._seq
+        down = not self.face.running
         try:
             ret = self.inst.new_data()
             self.log('publish', ret=ret, before=before, local=dict(self.inst.local_sv), running=self.inst.running,
-                     seq0=seq0)
+                     seq0=seq0, face_down=down, self_seq=self.inst.self_seq)
         except Exception as e:
-            self.log('publish', ret=None, before=before, exc=exc_brief(e), where=innermost_ndn_frame(e))
+            self.log('publish', ret=None, before=before, exc=exc_brief(e), where=innermost_ndn_frame(e), face_down=down,
+                     self_seq=self.inst.self_seq, local=dict(self.inst.local_sv))
         self.tok('P')
 
     def op_rx(self, op):
@@ -253,7 +274,7 @@ class SvsWorld(World):
                 self.harness_tasks.add(t)
             self.loop.call_soon(start)
             table = {'start': self.op_start, 'stop': self.op_stop, 'new_data': self.op_new_data, 'rx': self.op_rx,
-                     'restart': self.op_restart}
+                     'restart': self.op_restart, 'face_down': self.op_face_down}
             ops = sorted(self.scenario['ops'], key=lambda o: o['at'])
             i = 0
             while i < len(ops):
@@ -308,7 +329,7 @@ def judge_node(self, ev, selfname=None, check_tasks=True):
             cls, vec = classify_vector(rx, before.get(selfk), selfname)
             raised_some = any(after.get(n) is not None and (before.get(n) is None or after[n] > before[n])
                               for n in after)
-            if e['raised']:
+            if e['raised'] and 'scripted application error' not in str(e['raised']):
                 self.violate('C18', 'handler-raised', 'svs', e['where'],
                              f'sync handler raised {e["raised"]} on vector {rx["sv"]} ({cls})')
             if cls == 'reject':
@@ -349,13 +370,21 @@ def judge_node(self, ev, selfname=None, check_tasks=True):
             elif cls == 'unclear' and e['state_before'] == 'SyncSuppression':
                 relaxed_period = True
         elif k == 'publish':
+            own_now = (e.get('local') or {}).get(selfk)
+            if e.get('self_seq') is not None and own_now is not None and own_now != e['self_seq']:
+                self.violate('C18', 'publish-seq', 'svs', 'own-entry',
+                             f'after new_data() the own entry of the local vector is {own_now} but the instance counts '
+                             f'{e["self_seq"]} own publications')
+            if e.get('ret') is None and e.get('face_down') and str(e.get('exc', '')).startswith('NetworkError'):
+                heard = None
+                continue            # the face could not send: documented NetworkError; nothing more to judge here
             if e.get('ret') is None:
                 self.violate('C18', 'publish-raised', 'svs', e.get('where', '?'), f'new_data() raised {e.get("exc")}')
                 continue
             if e['ret'] != e['before'] + 1 or e['local'].get(selfk) != e['before'] + 1:
                 self.violate('C18', 'publish-seq', 'svs', 'new_data',
                              f'new_data() returned {e["ret"]} with own entry {e["local"].get(selfk)}; previous sequence number {e["before"]}')
-            if e['running']:
+            if e['running'] and not e.get('face_down'):
                 ok = False
                 for x in ev:
                     if x['k'] == 'tx' and x['seq'] > e['seq0'] and x['t'] <= e['t'] + 200:
@@ -380,7 +409,9 @@ def judge_node(self, ev, selfname=None, check_tasks=True):
                                  f'carrying the full vector {_fmt(e["local"])}')
             heard = None        # a publication ends the suppression period
         elif k == 'sup-end':
-            if e['by'] == 'timer' and heard is not None and not relaxed_period:
+            last_face = next((x['k'] for x in reversed(ev) if x['k'] in ('face-down', 'face-up') and x['seq'] < e['seq']), None)
+            face_was_down = last_face == 'face-down'
+            if e['by'] == 'timer' and heard is not None and not relaxed_period and not face_was_down:
                 local = e['local']
                 needed = any(s is not None and s > (heard.get(n) or 0) for n, s in local.items())
                 sent = [x for x in e['tx'] if x is not None]
@@ -432,9 +463,13 @@ def judge_node(self, ev, selfname=None, check_tasks=True):
         if t in self.harness_tasks:
             continue
         exc = t.exception()
+        if 'scripted application error' in str(exc):
+            continue        # the application's callback raised on purpose: the handler task carries that exception
         self.violate('C18', 'task-died', 'svs', innermost_ndn_frame(exc), f'background task ended with {exc_brief(exc)}')
     for rep in self.loop.exc_reports:
         exc = rep['exc']
+        if 'scripted application error' in str(exc):
+            continue
         self.violate('C18', 'loop-exc', 'svs', innermost_ndn_frame(exc) if exc else 'loop',
                      f'{rep["message"]} {rep["exc_type"]}')
 
@@ -519,6 +554,12 @@ def generate(rng, seed, tier='quick'):
         if x < 0.24:
             ops.append({'at': t, 'op': rng.choice(['stop', 'start', 'restart', 'restart'])})
             continue
+        if x < 0.27:
+            ops.append({'at': t, 'op': 'face_down', 'dur_us': rng.choice([1, 1000, sup_us, 3 * sup_us, int(sync_int * 1.2e6)])})
+            if rng.random() < 0.6:
+                ops.append({'at': t + rng.choice([0, 1, 500]), 'op': 'new_data'})
+                model_local[SELF] += 1
+            continue
         nonce += 1
         kind = 'ok'
         sv = []
@@ -563,7 +604,10 @@ def generate(rng, seed, tier='quick'):
                     model_local[n] = s
             last_trigger = t
         ops.append(op)
-    return {'engine': 'svs', 'property': 'C18', 'seed': seed,
+    extra = {}
+    if rng.random() < 0.12:
+        extra['cb_raise'] = sorted(set(rng.randrange(4) for _ in range(rng.randint(1, 2))))
+    return {'engine': 'svs', 'property': 'C18', 'seed': seed, **extra,
             'config': {'turn_cost_us': rng.choice([0, 0, 1]), 'wall_gran_us': 1000, 'debug_log': rng.random() < 0.2},
             'sup_interval': sup, 'sync_interval': sync_int, 'start_seq': own, 'rand16': rand16, 'ops': ops}
 
